@@ -371,4 +371,26 @@ CHECKS = {
         note="The digit loops of letter/Letter/roman/Roman, the boundaries "
              "26 and 3999 and CPython's list_iterator.__length_hint__ are "
              "value-level and NOT decided."),
+    "C06": dict(
+        technique="sibling agreement of the four interpolation contexts "
+                  "(abstract interpretation of the node constructors), "
+                  "pairing of the switch stack, path rules on the "
+                  "interpolator loop (order of decode/parse, shrink step, "
+                  "advance, odd-run test)",
+        text="Decides necessary structural conditions only: text, comments "
+             "and CDATA build an Interpolation only when the switch is on "
+             "and the text contains '${' (braces required), '<!--?' and the "
+             "comment option emit literally; the switch stack is pushed/"
+             "popped around the children and inherits; candidates are "
+             "entity-decoded before parsing on every path; a rejected "
+             "candidate is shrunk by one character at its end and searched "
+             "again or the error re-raised; a match advances by its full "
+             "length; the odd-run-of-$ test precedes un-doubling; the tail "
+             "is un-doubled; parts are concatenated in order with None as "
+             "empty; and whether $$ is un-doubled in every context.",
+        note="NECESSARY CONDITIONS ONLY: that the search picks the right "
+             "closing brace for every expression (the property's main "
+             "quantifier) is algorithmic and value-level -- no rule decides "
+             "it.  Known findings: $$ is not un-doubled in comments, CDATA "
+             "and attribute values that contain no ${."),
 }
